@@ -23,6 +23,10 @@ TraceStep(s, tok) ==
   IF ~s.ok THEN s
   ELSE IF tok \in SignToks THEN
      (IF s.last = "colon" THEN Bad(s) ELSE StepOperator(s, tok))
+  ELSE IF tok = "%" /\ s.last = "%" THEN
+     \* two separate % tokens were separated by white space in the text ("x% %");
+     \* deviation D1 ("%%" is one invalid token) fails inside the lexer, before any token
+     StepOperator([s EXCEPT !.last = ")"], "%")
   ELSE LET s1 == SYStepCore(s, tok)
        IN IF s1.ok /\ s1.stack = <<>> THEN Bad(s1) ELSE s1
 
